@@ -15,6 +15,24 @@ for tc in ET.parse(xmlf).getroot().iter('testcase'):
         passed.add('%s::%s' % (tc.get('classname'), tc.get('name')))
 os.unlink(xmlf)
 missing = [t for t in base['stable_pass'] if t not in passed]
+# the machine may be heavily loaded: re-run tests that did not pass (timing-dependent ones) up to 3 times
+still = []
+for t in missing:
+    cls, name = t.split('::')
+    mod, klass = cls.rsplit('.', 1)
+    node = '%s.py::%s::%s' % (mod.replace('.', '/'), klass, name)
+    ok = False
+    for _ in range(3):
+        q = subprocess.run(['/venv/bin/python', '-m', 'pytest', '-q', '-p', 'no:cacheprovider', '--timeout=900', node],
+                           cwd=repo, env=env, stdout=subprocess.PIPE, stderr=subprocess.STDOUT)
+        if q.returncode == 0:
+            ok = True
+            break
+    if ok:
+        print('  (passed on retry: %s)' % t)
+    else:
+        still.append(t)
+missing = still
 print('baseline: %d/%d stable tests pass' % (len(base['stable_pass']) - len(missing), len(base['stable_pass'])))
 for m in missing[:20]:
     print('  NOT PASSING:', m)
